@@ -163,3 +163,166 @@ class TermEval:
             else:
                 if on is None or not on(e):
                     raise Unknown('effect %s outside the finite evaluator' % e.kind)
+
+
+class PyEval(TermEval):
+    """Finite evaluation over plain Python values (None, bool, int, str, list, tuple, dict) for *configuration* terms:
+    argument namespaces, literal option tables, comprehensions over them.  The rule supplies the values of the leaves
+    through `atom`; everything else is computed structurally.  Used to tabulate guards (e.g. "is this option set
+    refused?") on a finite set of representative argument values, independent of how the guard is written."""
+
+    def __init__(self, atom=None, cmp=None, call=None):
+        super().__init__(atom, cmp, call)
+        self.benv = {}
+
+    def ev(self, t):
+        r = self.atom(t)
+        if r is not NOATOM:
+            return r
+        k = t[0]
+        if k == 'bvar':
+            if t[1] in self.benv:
+                return self.benv[t[1]]
+            raise Unknown('unbound variable %s' % show(t))
+        if k == 'indexof':
+            key = ('ix', t[1][1])
+            if key in self.benv:
+                return self.benv[key]
+            raise Unknown('position of an unbound variable')
+        if k in ('list', 'tuple'):
+            vals = [self.ev(x) for x in t[1]]
+            return vals if k == 'list' else tuple(vals)
+        if k == 'dict':
+            return {self.key(self.ev(a)): self.ev(b) for a, b in t[1]}
+        if k == 'upd':
+            base = dict(self.ev(t[1]))
+            if t[2] == 'setidx':
+                base[self.key(self.ev(t[3]))] = self.ev(t[4])
+                return base
+            raise Unknown('update ' + t[2])
+        if k == 'attr' and t[1][0] == 'sym' and t[1][1][:1].isupper():
+            return Abs('enum', (t[1][1], t[2]))
+        if k == 'idx':
+            b, i = self.ev(t[1]), self.ev(t[2])
+            try:
+                if isinstance(b, dict):
+                    return b[self.key(i)]
+                return b[i]
+            except (IndexError, KeyError, TypeError) as e:
+                raise Raises('%s: %s' % (type(e).__name__, show(t)[:60]))
+        if k == 'slice':
+            b = self.ev(t[1])
+            lo, hi = self.ev(t[2]), self.ev(t[3])
+            try:
+                return b[lo:hi]
+            except TypeError as e:
+                raise Raises('TypeError: ' + show(t)[:60])
+        if k in ('comp', 'sum'):
+            out = []
+            self._chain(list(t[1]), 0, t[2], out)
+            if k == 'sum':
+                tot = 0
+                for v in out:
+                    tot = tot + v
+                return tot
+            return out
+        if k == 'cat':
+            out = []
+            for p in t[1]:
+                out += list(self.ev(p))
+            return out
+        if k == 'fstr':
+            return ''.join(str(self.ev(x)) for x in t[1])
+        if k == 'cmp' and t[1] in ('In', 'NotIn'):
+            a, b = self.ev(t[2]), self.ev(t[3])
+            try:
+                r = (self.key(a) in [self.key(x) for x in b]) if not isinstance(b, dict) else (self.key(a) in b)
+            except TypeError:
+                raise Raises('TypeError: argument of type is not iterable')
+            return r if t[1] == 'In' else not r
+        if k == 'call':
+            f = t[1]
+            if f[0] == 'sym' and f[1] in ('isinstance',) and len(t[2]) == 2:
+                v = self.ev(t[2][0])
+                ty = t[2][1]
+                names = [ty[1]] if ty[0] == 'sym' else [x[1] for x in ty[1]] if ty[0] == 'tuple' else []
+                pyt = {'list': list, 'tuple': tuple, 'int': int, 'str': str, 'dict': dict, 'float': float, 'bool': bool}
+                return any(isinstance(v, pyt[n]) and not (n == 'int' and isinstance(v, bool)) for n in names if n in pyt)
+            if f[0] == 'sym' and f[1] in ('len', 'all', 'any', 'sorted', 'list', 'tuple', 'max', 'min', 'sum', 'range', 'set', 'abs', 'int', 'str', 'bool') and not t[3]:
+                args = [self.ev(x) for x in t[2]]
+                try:
+                    if f[1] == 'all':
+                        return all(self.truth(x) for x in args[0])
+                    if f[1] == 'any':
+                        return any(self.truth(x) for x in args[0])
+                    if f[1] == 'range':
+                        return list(range(*args))
+                    if f[1] == 'set':
+                        out = []
+                        for x in args[0]:
+                            if self.key(x) not in [self.key(y) for y in out]:
+                                out.append(x)
+                        return out
+                    if f[1] == 'bool':
+                        return self.truth(args[0])
+                    return {'len': len, 'sorted': sorted, 'list': list, 'tuple': tuple, 'max': max, 'min': min, 'sum': sum, 'abs': abs, 'int': int, 'str': str}[f[1]](*args)
+                except TypeError as e:
+                    raise Raises('TypeError: %s' % e)
+                except ValueError as e:
+                    raise Raises('ValueError: %s' % e)
+            if f[0] == 'attr' and f[2] in ('keys', 'values', 'items', 'get', 'count', 'index') :
+                recv = self.ev(f[1])
+                args = [self.ev(x) for x in t[2]]
+                if isinstance(recv, dict):
+                    if f[2] == 'keys':
+                        return list(recv.keys())
+                    if f[2] == 'values':
+                        return list(recv.values())
+                    if f[2] == 'items':
+                        return [tuple(x) for x in recv.items()]
+                    if f[2] == 'get':
+                        return recv.get(self.key(args[0]), args[1] if len(args) > 1 else None)
+                if isinstance(recv, (list, tuple)) and f[2] == 'count':
+                    return sum(1 for x in recv if self.key(x) == self.key(args[0]))
+        return super().ev(t)
+
+    @staticmethod
+    def key(v):
+        if isinstance(v, list):
+            return ('L',) + tuple(PyEval.key(x) for x in v)
+        if isinstance(v, Abs):
+            return ('A', v.tag, v.data)
+        return v
+
+    def truth(self, v):
+        if isinstance(v, (list, tuple, dict)):
+            return bool(v)
+        return super().truth(v)
+
+    def compare(self, op, a, b):
+        if isinstance(a, (list, tuple, dict)) or isinstance(b, (list, tuple, dict)):
+            if op in ('Eq', 'Is'):
+                return self.key(a) == self.key(b) if op == 'Eq' else (a is b)
+            if op in ('NotEq', 'IsNot'):
+                return self.key(a) != self.key(b) if op == 'NotEq' else (a is not b)
+            if a is None or b is None or type(a) != type(b):
+                raise Raises("TypeError: '%s' not supported between %s and %s" % (OPS[op], type(a).__name__, type(b).__name__))
+        if isinstance(a, bool) or isinstance(b, bool):
+            pass
+        return super().compare(op, a, b)
+
+    def _chain(self, chain, k, val, out):
+        if k == len(chain):
+            out.append(self.ev(val))
+            return
+        b, g = chain[k]
+        dom = self.ev(b[3])
+        if isinstance(dom, dict):
+            dom = list(dom.keys())
+        for pos, el in enumerate(dom):
+            self.benv[b[1]] = el
+            self.benv[('ix', b[1])] = pos
+            if g == TRUE or self.truth(self.ev(g)):
+                self._chain(chain, k + 1, val, out)
+        self.benv.pop(b[1], None)
+        self.benv.pop(('ix', b[1]), None)
